@@ -242,6 +242,10 @@ class Env(object):
                 for lid in reg[level][ev]:
                     mgr_obj.add_listener(ev, listener(level, lid, ev))
 
+        # even argument values: the method declares TWO return values (another branch of
+        # Application.process_request wraps the result)
+        two = isinstance(case.get("a"), int) and case["a"] % 2 == 0
+
         # functions -----------------------------------------------------------------
         def m(ctx, a, s):
             trace.append(("F", "enter"))
@@ -249,6 +253,8 @@ class Env(object):
                 trace.append(("F", "raise"))
                 raise make_exc()
             trace.append(("F", "return"))
+            if two:
+                return "%s:%s" % (s, a), a
             return "%s:%s" % (s, a)
 
         def u(ctx, a, s):
@@ -257,7 +263,7 @@ class Env(object):
             return 5          # declared DateTime: the XML protocols cannot serialise an int
 
         self.meth_mgr = None
-        kw_m = {"_returns": Unicode}
+        kw_m = {"_returns": [Unicode, Integer] if two else Unicode}
         kw_u = {"_returns": DateTime}
         if lay.get("meth") or case["rlevel"] == "meth":
             self.meth_mgr = EventManager(None)
@@ -832,6 +838,7 @@ def run_case(case, rec):
         rec.case(case, failures=fails, classes=["driver_error"])
         return fails
     fails = Oracle(E, reply).run()
+    fails.extend(_sibling_isolation(E, case))
     _forget(E)
     nlevels = len(_levels(case["layout"]))
     nt = None
@@ -845,6 +852,42 @@ def run_case(case, rec):
                       "levels:%d" % nlevels]
              + (["raiser@" + case["rlevel"]] if case["rlevel"] else []))
     return fails
+
+
+def _sibling_isolation(E, case):
+    """listeners registered on the service class itself (after it was derived from a base that
+    already listens) belong to that class: a call to a SIBLING service derived from the same
+    base must run the inherited listeners only"""
+    lay = LAYOUTS[case["layout"]]
+    if not (lay.get("base") and lay.get("svc")) or case["fp"] != "success":
+        return []
+    from spyne import Application, rpc, Unicode
+    from spyne.protocol.json import JsonDocument
+    own = set(lay["svc"]) - set(lay["base"]) - set(lay.get("base2", ()))
+    if not own:
+        return []
+
+    def sib(ctx, s):
+        return s
+    Sib = type("Sib", (E.Base,), {"sib": rpc(Unicode, _returns=Unicode)(sib)})
+    _uniq[0] += 1
+    app2 = Application([Sib], tns="urn:c14:s%d" % _uniq[0], name="C14Sib%d" % _uniq[0],
+                       in_protocol=JsonDocument(), out_protocol=JsonDocument())
+    n0 = len(E.trace)
+    try:
+        drive.server_call(app2, b'{"sib": {"s": "x"}}')
+    finally:
+        try:
+            from spyne.util.appreg import unregister_application
+            unregister_application(app2)
+        except Exception:
+            pass
+    leaked = sorted(set(r[2] for r in E.trace[n0:] if r[0] == "L" and r[1] == "svc" and r[2] in own))
+    if leaked:
+        return [("C14|listeners:leaked|sibling",
+                 "listeners %r registered on the service class ran for a call to a sibling service "
+                 "derived from the same base" % (leaked,))]
+    return []
 
 
 _ncases = [0]
